@@ -1,6 +1,6 @@
 (** C18 — generation is deterministic and idempotent (PARTIAL: the theorems carry ordering and naming; byte
     identity of whole files across processes is observed, not proved). *)
-From GV Require Import Base.Prelude Model.GenOrder Model.Naming Proofs.GenOrderProofs Proofs.NamingProofs Corr.Corr_C17 Corr.Corr_C18.
+From GV Require Import Base.Prelude Model.GenOrder Model.Naming Model.Rewrite Model.Regen Proofs.GenOrderProofs Proofs.NamingProofs Proofs.RegenProofs Corr.Corr_C17 Corr.Corr_C18.
 Open Scope list_scope.
 
 (** A sorted permutation of items whose keys are pairwise distinct is unique. *)
@@ -33,6 +33,42 @@ Theorem C18_registry_order_sensitive_refuted :
 Proof. split; vm_compute; reflexivity. Qed.
 Print Assumptions C18_registry_order_sensitive_refuted.
 
+(** Running generation again on a freshly generated tree changes nothing - the resolver files, at declaration
+    level: for every set of resolvers the schema calls for, in either layout (with or without the root type in
+    the file), whatever text the templates render, regenerating over the output of a generation from no
+    resolver files gives that output again. *)
+Theorem C18_regen_fresh_tree_fixpoint :
+  forall method_src access_src struct_src stub_body default_doc lv,
+  wf_live lv = true ->
+  regen method_src access_src struct_src stub_body default_doc copied lv
+        (regen method_src access_src struct_src stub_body default_doc copied lv [])
+  = regen method_src access_src struct_src stub_body default_doc copied lv [].
+Proof. exact regen_fresh_fixpoint_lemma. Qed.
+Print Assumptions C18_regen_fresh_tree_fixpoint.
+
+(** and over ANY resolver files, hand-edited or not, nothing changes any more from the second run on *)
+Theorem C18_regen_stable_from_second_run :
+  forall method_src access_src struct_src stub_body default_doc lv before,
+  wf_live lv = true ->
+  let run := regen method_src access_src struct_src stub_body default_doc copied lv in
+  run (run (run before)) = run (run before).
+Proof. exact regen_fixpoint_lemma. Qed.
+Print Assumptions C18_regen_stable_from_second_run.
+
+(** The pinned commit is refuted: in the single-file layout the root resolver type, emitted again by every run,
+    was also treated as left-over code, so the second run over a fresh tree added a warning block. *)
+Theorem C18_regen_single_file_legacy_refuted :
+  let lv := [{| l_file := "resolver.go"; l_methods := [("queryResolver", "Todos")]; l_structs := ["queryResolver"]; l_access := ["Query"]; l_root := true |}] in
+  let run := regen (fun r n b => r ++ "." ++ n ++ "{" ++ b ++ "}") (fun a => a) (fun s => s) (fun _ _ => "panic()") (fun _ n => n) copied_legacy lv in
+  wf_live lv = true /\ map f_remaining (run []) = [None] /\ map f_remaining (run (run [])) = [Some "type Resolver struct{}"].
+Proof. vm_compute. repeat split; reflexivity. Qed.
+Print Assumptions C18_regen_single_file_legacy_refuted.
+
 (** Non-vacuity *)
 Example C18_nonvacuous : isort id_key ["b"; "a"; "C"] = ["C"; "a"; "b"] /\ sortedb id_key ["C"; "a"; "b"] = true.
 Proof. vm_compute. split; reflexivity. Qed.
+Example C18_regen_nonvacuous :
+  let lv := [{| l_file := "resolver.go"; l_methods := [("queryResolver", "Todos"); ("todoResolver", "User")]; l_structs := ["queryResolver"; "todoResolver"]; l_access := ["Query"; "Todo"]; l_root := true |}] in
+  let run := regen (fun r n b => r ++ "." ++ n ++ "{" ++ b ++ "}") (fun a => a) (fun s => s) (fun _ _ => "panic()") (fun _ n => n) copied lv in
+  wf_live lv = true /\ map (fun f => List.length (f_decls f)) (run []) = [7%nat] /\ map f_remaining (run (run [])) = [None].
+Proof. vm_compute. repeat split; reflexivity. Qed.
